@@ -24,6 +24,12 @@ def main(argv=None):
         os.execve(sys.executable, [sys.executable, "-m", "checks"] + (argv or sys.argv[1:]), env)
     import warnings
     warnings.simplefilter("ignore")
+    # development aid: judge a scratch copy of the repository instead of /repo (never used by MANIFEST commands)
+    alt = os.environ.get("VERIF_REPO")
+    if alt:
+        sys.path.insert(0, alt)
+        import avocado_i2n
+        assert avocado_i2n.__file__.startswith(alt), avocado_i2n.__file__
     prop = args.prop
     if prop in TRAV:
         from checks import trav
